@@ -247,6 +247,15 @@ def run (α : Type) [Scalar α] [Codec α] (op : String) (c : Ctx) : Option (Rd 
         match radiusOf b with
         | .ok v => pure (Out.sc v)
         | .error e => pure s!"E:{e}"
+  | "s.nnlskkt" => some do
+      -- in: boundary points c r2 weights ; out: min_j g_j, Σ_j w_j g_j, Σ_j w_j  (g = Aᵀ(Aw − b); exact in Q).
+      -- `nnls_kkt_sound`: ‖Aw−b‖² ≤ ‖Aw'−b‖² + 2δ·Σw' + 2κ for all w' ≥ 0, δ = max(0, −min g), κ = max(0, Σ w g)
+      let bd : List (V3 α) ← Rd.list c (Rd.v3 c)
+      let cen : V3 α ← Rd.v3 c
+      let r2 : α ← Rd.sc c
+      let w : List α ← Rd.list c (Rd.sc c)
+      let r := BallSpec.nnlsKkt bd cen r2 w
+      pure s!"{Out.sc r.1} {Out.sc r.2.1} {Out.sc r.2.2}"
   | _ => none
 
 end OpsC13
